@@ -13,7 +13,7 @@ import (
 )
 
 var c16Causes = []string{"disconnect", "abrupt", "keepalive", "protocol-error", "server-close"}
-var c16Conds = []string{"idle", "out-full", "in-full", "cross-blocked"}
+var c16Conds = []string{"idle", "out-full", "in-full", "cross-blocked", "in-partial-large"}
 
 // c16Cell runs one teardown scenario in a bubble.
 //
@@ -47,8 +47,17 @@ func c16Cell(t *testing.T, cause, cond string, order int, will, clean bool, seed
 			}
 			return o
 		}
-		X, ax := w.connectB("X", mk("X", 7001))
-		P, ap := w.connectB("P", mk("P", 7002))
+		// Server.Close walks its connections in the order they were accepted: with that cause the
+		// "order" coordinate decides who was accepted first
+		var X, P *bclient
+		var ax, ap *rc.Packet
+		if cause == "server-close" && order == 1 {
+			P, ap = w.connectB("P", mk("P", 7002))
+			X, ax = w.connectB("X", mk("X", 7001))
+		} else {
+			X, ax = w.connectB("X", mk("X", 7001))
+			P, ap = w.connectB("P", mk("P", 7002))
+		}
 		if ax == nil || ap == nil {
 			fail("c16:connect", "X/P")
 			return
@@ -84,6 +93,12 @@ func c16Cell(t *testing.T, cause, cond string, order int, will, clean bool, seed
 			P.PauseReading()
 			flood(P, "to/x", 16384+3*3010+8192)
 			flood(X, "to/p", 16384+3*3010+8192)
+		case "in-partial-large":
+			// X has sent a small packet and, in the same write, one almost as large as its inbound ring:
+			// the ring holds a message that is not complete yet and has less than one read block free
+			pre := rc.Encode(&rc.Packet{Type: rc.PUBLISH, Topic: []byte("to/nobody"), Payload: spec.MakePayload(uids.next(), 0, 3000)})
+			pre = append(pre, rc.Encode(&rc.Packet{Type: rc.PUBLISH, Topic: []byte("to/nobody"), Payload: spec.MakePayload(uids.next(), 0, 16384-600+r.Intn(400))})...)
+			X.Send(pre)
 		case "in-full-pipelined":
 			// P's processor is parked on a delivery to X (not reading); the packet right behind the
 			// blocked PUBLISH ends P's connection, and more traffic behind it keeps P's inbound ring full
@@ -236,10 +251,10 @@ func c16Cell(t *testing.T, cause, cond string, order int, will, clean bool, seed
 					wantP = 0
 				}
 			} else if cause == "disconnect" {
-				if order == 0 && (cond == "idle" || cond == "out-full" || cond == "in-full") {
+				if order == 0 && (cond == "idle" || cond == "out-full" || cond == "in-full" || cond == "in-partial-large") {
 					wantX = 0 // X ended by DISCONNECT
 				}
-				if order == 1 && cond == "idle" {
+				if order == 1 && (cond == "idle" || cond == "in-partial-large") {
 					wantP = 0
 				}
 			}
